@@ -39,7 +39,7 @@ func c11Program(rng *rand.Rand) []vfOp {
 			y := rng.IntN(10)
 			switch {
 			case y == 0:
-				return -1 - rng.IntN(4) // bogus strings, or (-4) a guessed numeric handle
+				return -1 - rng.IntN(6) // bogus strings, (-4) a guessed numeric handle, (-5,-6) other spellings of a live one
 			case y <= 2 && len(closed) > 0:
 				return closed[rng.IntN(len(closed))]
 			case len(open) > 0:
@@ -48,7 +48,7 @@ func c11Program(rng *rand.Rand) []vfOp {
 			return -1
 		}
 		useM := func() int { // for requests that change state: no guessed handles (their effect could not be attributed)
-			if h := use(); h != -4 {
+			if h := use(); h > -4 {
 				return h
 			}
 			return -1
